@@ -162,18 +162,18 @@ package mcp
 //@   invariant isnil(self.state) || istype(self.state, State)
 //@
 //@ func stdioClientTransport.sendRequest
-//@   trusted
+//@   trusted[C16]
 //@   modifies *
-//@   ensures netops == old(netops) + 1
-//@   ensures ret1 == nil ==> ret != nil
+//@   ensures[C16] netops == old(netops) + 1
+//@   ensures[C16] ret1 == nil ==> ret != nil
 //@ func stdioClientTransport.sendNotification
-//@   trusted
+//@   trusted[C16]
 //@   modifies *
-//@   ensures netops == old(netops) + 1
+//@   ensures[C16] netops == old(netops) + 1
 //@ func stdioClientTransport.close
-//@   trusted
+//@   trusted[C16]
 //@   modifies *
-//@   ensures netops == old(netops)
+//@   ensures[C16] netops == old(netops)
 //@
 //@ func StdioClient.setState
 //@   helper
@@ -952,13 +952,37 @@ package mcp
 //@ func sseClientTransport.start
 //@   before call Handle#1 assert[C08 stream-is-bound-to-the-context-close-cancels] reqctx(req) == sseCtx
 //@
+// a context.CancelFunc ends its context (assumed library behaviour); cancels counts the calls
+//@ callspec CancelFunc
+//@   counted cancels
+//@   modifies cancels
+//@
+// the stored body-close function of the SSE stream only closes that body (assumed: it is resp.Body.Close)
+//@ callspec bodyClose
+//@   pure
+//@
+//@ func sseClientTransport.close
+//@   ensures[C08 close-marks-the-transport-closed] t.closed
+//@   ensures[C08 close-cancels-the-stream-context] !old(t.closed) && old(t.sseConn.cancel) != nil ==> cancels == old(cancels) + 1
+//@   ensures[C08 close-leaves-no-pending-entry] !old(t.closed) ==> len(t.responses) == 0
+//@ func sseClientTransport.readSSE
+//@   ensures[C08 stream-end-closes-the-transport] t.closed
+//@   ensures[C08 stream-body-closed] bodyclosed(body)
+//@ func stdioClientTransport.processWatcher
+//@   ensures[C08 process-exit-cancels-the-transport-context] old(t.process) != nil ==> cancels == old(cancels) + 1 || t.closed
+//@ func stdioClientTransport.close
+//@   ensures[C08 close-marks-the-transport-closed] t.closed
+//@   ensures[C08 close-cancels-the-transport-context] !old(t.closed) ==> cancels == old(cancels) + 1
+//@
 //@ sweepscope[C08] kinds=cancel files=streamable_client.go,sse_client.go,transport_stdio.go,client.go,stdio_client.go
 
 //@ type sseClientTransport
 //@   guarded[C08] responses by responsesMu
+//@   private[C08] closed writers close
 //@   transient[C08] responses
 //@ type stdioClientTransport
 //@   guarded[C08] pendingRequests by pendingMutex
+//@   private[C08] closed writers close
 //@   transient[C08] pendingRequests
 //@
 //@ func streamableHTTPClientTransport.handleSSEResponse
